@@ -246,6 +246,10 @@ class Explorer:
     # -- called by proxies
     def decide(self, cond):
         r = self.run
+        # already decided on this path: no new information, no query, no new decision
+        known = r.known.get(cond.uid)
+        if known is not None:
+            return known
         if r.pos < len(r.prefix):
             b = r.prefix[r.pos][0]
             r.trace.append(r.prefix[r.pos])
@@ -267,6 +271,8 @@ class Explorer:
                 raise Infeasible()
         r.pos += 1
         r.pc.append(cond if b else X.not_(cond))
+        r.known[cond.uid] = b
+        r.known[X.not_(cond).uid] = not b
         return b
 
     def assumption_added(self):
@@ -334,6 +340,7 @@ class Explorer:
         r.trace = []
         r.pos = 0
         r.pc = []
+        r.known = {}
         r.synced = None
         self.run = r
         ctx = SymCtx(self)
@@ -453,6 +460,7 @@ class Prover:
         for g, zg in zip(pr.goals, zG):
             s.push()
             s.add(z3.Not(zg))
+            t_g = time.time()
             r = self._check(s)
             rec = dict(label=g.label, verdict=r)
             if r == 'sat':
@@ -478,6 +486,7 @@ class Prover:
                 except Exception:
                     pass
             s.pop()
+            rec['t'] = round(time.time() - t_g, 3)
             out.append(rec)
         self.last_side_bad = side_bad
         self.last_groups = enc.n_groups
